@@ -237,3 +237,32 @@ pub fn u64_from_be_chunk(src: &[u8], i: usize, c: usize) -> (r: u64)
     requires c == 8, c * (i + 1) <= src@.len()
     ensures r as int == le8_at(src@.subrange(c * i, c * i + 8).reverse(), 0)
 { unimplemented!() }
+
+// ---- decimal strings (FromStr).  A-STD (rule R33): `str::chars` yields the characters in order; `char::to_digit(10)` is
+// Some(c - '0') exactly for '0'..='9'
+pub open spec fn is_digit(c: char) -> bool { '0' <= c && c <= '9' }
+pub open spec fn all_digits(s: Seq<char>) -> bool { forall|i: int| 0 <= i < s.len() ==> is_digit(#[trigger] s[i]) }
+pub open spec fn dec_val(s: Seq<char>) -> int decreases s.len() {
+    if s.len() == 0 { 0 } else { 10 * dec_val(s.drop_last()) + (s.last() as int - '0' as int) }
+}
+#[verifier::external_body]
+pub fn str_chars(s: &str) -> (r: Vec<char>) ensures r@ == s@ { s.chars().collect() }
+pub assume_specification [char::to_digit] (c: char, radix: u32) -> (r: Option<u32>)
+    requires radix == 10
+    ensures match r { Some(d) => is_digit(c) && d as int == c as int - '0' as int, None => !is_digit(c) };
+pub proof fn lemma_dec_step(p: int, s: Seq<char>, i: int, acc0: int, ten_acc: int, d: int, acc1: int)
+    requires p > 10, 0 <= i < s.len(), is_digit(s[i]), acc0 == dec_val(s.take(i)) % p, 0 <= acc0,
+             ten_acc == (10 * acc0) % p, d == (s[i] as int - '0' as int) % p, acc1 == (ten_acc + d) % p
+    ensures acc1 == dec_val(s.take(i + 1)) % p
+{
+    let t = s.take(i + 1);
+    assert(t.drop_last() =~= s.take(i));
+    assert(t.last() == s[i]);
+    let c = s[i] as int - '0' as int;
+    assert(0 <= c <= 9);
+    vstd::arithmetic::div_mod::lemma_small_mod(c as nat, p as nat);
+    vstd::arithmetic::div_mod::lemma_small_mod(10, p as nat);
+    lemma_horner_step(p, acc0, dec_val(s.take(i)), c, 10);
+    assert(acc0 * (10int % p) == 10 * acc0) by(nonlinear_arith) requires 10int % p == 10;
+    assert(c + 10 * dec_val(s.take(i)) == 10 * dec_val(s.take(i)) + c);
+}
